@@ -153,6 +153,11 @@ def zb_plan(thorough_layers=(), miri_scale=0.002, quick_scale=1.0):
                 elif layer in ("asan", "tsan"):
                     st["scale"] = 0.3
                     st["args"] = ["--tier", "quick"]
+                elif layer == "valgrind":
+                    # ~25x slower: only the real-socket classes (libc sendmsg/recvmsg with ancillary data), 4 shards
+                    st["scale"] = 0.5
+                    st["nshards"] = 8
+                    st["args"] = ["--tier", "quick", "--x-only", "real-socket"]
                 elif layer == "release":
                     st["scale"] = 0.5
                 steps.append(st)
@@ -213,13 +218,15 @@ PROPS["C13"] = {
 
 PROPS["C14"] = {
     "level": "exploration",
-    "plan": zb_plan(("release", "asan", "miri")),
+    "plan": zb_plan(("release", "asan", "valgrind", "miri")),
     "rule": ("reference-marshalled message sequences (1..12 messages, 16 B..70 KiB, both endians, 0..3 fds) delivered through the scripted "
              "transport: ALL single cuts and all pairs of cuts (first 100 offsets in quick) of a 3-message stream, 1-byte reads, "
              "fixed-size and random cut plans incl. cuts around the 16-byte header, under 5 scheduler biases; received == sent "
              "(bytes, fd identity by (dev,ino), order, increasing recv_position, end after EOF); EVERY handshake-leftover length 0..len(m1)+len(m2)+20 of such a stream behind a real client handshake (x3 chunkings); "
+             "160 streams over a REAL socketpair (raw peer thread: SASL, sendmsg in random pieces with SCM_RIGHTS; the library's libc recvmsg path and "
+             "executor thread; fd census afterwards); "
              "headers declaring > 128 MiB must produce an error at quiescence without a large allocation; distinct = distinct schedule fingerprints"),
-    "gates": {"quick": {"evaluations": 5000, "distinct": 1000, "class:handshake-leftover": 200, "class:leftover-inside-first-fixed-header": 40, "leftover_lengths_enumerated": 50},
+    "gates": {"quick": {"evaluations": 5000, "distinct": 1000, "class:real-socketpair": 140, "real_socket_messages": 500, "class:handshake-leftover": 200, "class:leftover-inside-first-fixed-header": 40, "leftover_lengths_enumerated": 50},
               "thorough": {"evaluations": 60000, "distinct": 10000}},
     "assumptions": ["the scripted transport cuts before every fd-carrying message as the kernel does and hands fds to the read that consumes the message's first byte; how many bytes each recvmsg asks for is not judged",
                     "handshake leftovers: every leftover length of a 3-message stream here; random leftovers with several fd-carrying messages under C17"],
@@ -272,13 +279,16 @@ PROPS["C17"] = {
 
 PROPS["C18"] = {
     "level": "exploration",
-    "plan": zb_plan(("release", "miri")),
+    "plan": zb_plan(("release", "asan", "tsan", "valgrind", "miri")),
     "rule": ("2..12 harness tasks each sending 1..6 library-built messages (unique (sender, seq) bodies, 0..9 kB padding, 0..2 fds) on one "
              "connection whose scripted write half accepts 1/3/7/16/64/4096/all bytes per call and stalls 0/20/50/80% of calls, under 4 "
              "scheduler biases; the captured (bytes, fds) call sequence is framed by the reference parser: every frame is a sent message, "
              "each sent message appears once, per-sender order holds, fds are passed with the call carrying offset 0 and no other; "
-             "distinct = distinct schedule fingerprints; class other-sender-polled-mid-message must be observed"),
-    "gates": {"quick": {"evaluations": 3000, "distinct": 2500, "class:other-sender-polled-mid-message": 500, "messages_checked": 20000},
+             "distinct = distinct schedule fingerprints; class other-sender-polled-mid-message must be observed; plus 140 cases over a REAL "
+             "socketpair with 2..8 OS threads sending through one connection whose socket has a 2-16 kB send buffer (kernel partial writes), a raw peer "
+             "thread recording every recvmsg: same framing/once/order oracle, and each fd group must arrive with the read covering its message's first byte"),
+    "gates": {"quick": {"evaluations": 3000, "distinct": 2500, "class:other-sender-polled-mid-message": 500, "messages_checked": 20000,
+                        "class:real-socketpair-threads": 120, "real_reads_starting_inside_a_message": 200},
               "thorough": {"evaluations": 150000, "distinct": 100000}},
     "assumptions": ["senders are never cancelled in the middle of a partial write (a dropped send future leaves half a message on the wire: observation in DESIGN.md, outside the property)"],
 }
@@ -594,7 +604,7 @@ PROPS["C27"] = {
     "level": "exploration",
     "plan": gen_plan("zg", 12, 40, 3, thorough_layers=("release",)),
     "rule": ("the same GENERATED interfaces (with signals and properties of all access / emits-changed modes, and doc comments drawn from a pool of "
-             "XML-hostile text: <, &, quotes, --, -->, ]]>, entity look-alikes, non-ASCII, blank lines) registered on random trees over "
+             "XML-hostile text: <, &, quotes, --, -->, runs of 3..5 hyphens, ]]>, entity look-alikes, non-ASCII, blank lines) registered on random trees over "
              "4 paths; Introspect at EVERY node: the document must pass an independent strict XML well-formedness checker, be read by "
              "zbus_xml, list exactly the node's interfaces (+ Peer/Introspectable/Properties) and child nodes, and declare for every "
              "generated method (in/out argument types in order), signal and property (type, access, EmitsChangedSignal annotation) "
@@ -611,12 +621,12 @@ PROPS["C28"] = {
     "rule": ("the same GENERATED interfaces' properties (0..6 each: read / write / readwrite, emits true / invalidates / false / const, sync and "
              "async getters, fallible setters, types over the palette): histories of 20..60 (50..500 thorough) Get / GetAll / Set "
              "operations from the raw peer incl. unknown property / interface, read-only and write-only targets, wrongly typed and "
-             "setter-refused values; each reply and the PropertiesChanged signals seen up to the next quiescent point are compared with "
+             "setter-refused values, and Sets of the value already held; each reply and the PropertiesChanged signals seen up to the next quiescent point are compared with "
              "a property-store model: values, exactly the readable set in GetAll, errors leave the store unchanged, exactly one "
              "signal with the new value / the invalidated name per successful Set of an emitting property and none otherwise; "
              "distinct = distinct (history, schedule)"),
     "gates": {"quick": {"evaluations": 1100, "distinct": 700, "operations_checked": 25000, "class:get": 4000, "class:get-all": 3000, "class:set-ok": 2000,
-                        "class:set-with-signal": 800, "class:expected-error": 5000, "generated_properties": 15},
+                        "class:set-with-signal": 800, "class:set-of-the-current-value": 500, "class:expected-error": 5000, "generated_properties": 15},
               "thorough": {"evaluations": 35000, "distinct": 25000}},
     "assumptions": ["whether PropertiesChanged precedes or follows the method return is not judged", "any error reply counts as a rejection (the property does not name the errors)"],
 }
